@@ -142,7 +142,9 @@ def render_expr(e, st: Style, dot_follows=False):
         rneed = L_POW
         if k == "mul" and e["b"]["k"] == "mul" and st.chance(0.3):
             rneed = L_MUL
-        r = _wrap(render_expr(e["b"], st, dot_follows), rneed, st)
+        # an integer literal divisor is written as a plain integer (x/3.0 would be read as x*0.333333333333333)
+        rst = _PlainNums(st) if (k == "div" and not _has_var(e["b"])) else st
+        r = _wrap(render_expr(e["b"], rst, dot_follows), rneed, st)
         op = "*" if k == "mul" else "/"
         s1, s2 = st.sp(), st.sp()
         if op == "*" and (l.endswith("*") or r.startswith("*")):
